@@ -215,6 +215,13 @@ func main() {
 	addKey("b", b, bPriv, bPriv.PublicKey())
 	addKey("a-second-object", a, aPriv, a2pk)
 	addKey("r-a", negA, mkPriv(negA), mkPriv(negA).PublicKey())
+	// the key a held as a non-normalised projective point (what RemoveBLSPublicKeys and the DKG /
+	// threshold key generation hand out): verdicts must not depend on the representation
+	if ab, err := crypto.AggregateBLSPublicKeys([]crypto.PublicKey{aPriv.PublicKey(), bPriv.PublicKey()}); err == nil {
+		if aj, err := crypto.RemoveBLSPublicKeys(ab, []crypto.PublicKey{bPriv.PublicKey()}); err == nil {
+			addKey("a-projective-from-RemoveBLSPublicKeys", a, aPriv, aj)
+		}
+	}
 	addKey("identity", new(big.Int), nil, crypto.IdentityBLSPublicKey())
 	if zsk, err := crypto.AggregateBLSPrivateKeys([]crypto.PrivateKey{aPriv, mkPriv(negA)}); err == nil {
 		addKey("identity-as-public-key-of-aggregated-private-keys", new(big.Int), nil, zsk.PublicKey())
